@@ -24,7 +24,7 @@ func newOr(astNode schema.ASTNode) *Or {
 	}
 
 	or := Or{
-		AnyOf:       newAnyOf(rule.Items),
+		AnyOf:       newAnyOf(rule.Items, astNode),
 		Example:     ex,
 		Nullable:    newNullable(astNode),
 		Description: newDescription(astNode),
@@ -33,7 +33,7 @@ func newOr(astNode schema.ASTNode) *Or {
 	return &or
 }
 
-func newAnyOf(rr []schema.RuleASTNode) []Node {
+func newAnyOf(rr []schema.RuleASTNode, carrier schema.ASTNode) []Node {
 	nn := make([]Node, 0, len(rr))
 
 	for _, r := range rr {
@@ -42,6 +42,14 @@ func newAnyOf(rr []schema.RuleASTNode) []Node {
 
 		if p, ok := node.(*Primitive); ok { // fix empty string Example. See JSight {or: [ {type: "integer"} ]}
 			p.Example = nil
+			if mock.Rules.Has("const") && mock.Rules.GetValue("const").Value == internal.StringTrue &&
+				carrier.TokenType != schema.TokenTypeShortcut {
+				// `const` in an alternative fixes the value to the example of the node that
+				// carries the "or", not to the name of the alternative's type.
+				enum := makeEmptyEnum()
+				enum.append(newExample(carrier.Value, internal.IsString(carrier)).jsonValue())
+				p.Enum = enum
+			}
 			node = p
 		}
 
